@@ -782,3 +782,38 @@ Proof.
   cbv zeta. split; [|vm_compute; repeat split].
   repeat split. exists 3%Z. split; [reflexivity|unfold i32_ok; split; reflexivity || discriminate].
 Qed.
+
+(* WAVE 10 -- THE EAGER FILE LOOP, EVERY CALL KEPT (NV.Vcf.EagerLoop): read_record_buf called with ONE
+   reused RecordBuf until Ok(0), going on after an Err (read_line has consumed the line whether or
+   not it is UTF-8), as a function of the text alone -- for EVERY text, every UTF-8 predicate, every
+   header context it is the record reader mapped over the lines of the text, and the lines are the
+   unique split of the text at its LFs. *)
+From NV Require Import Vcf.EagerLoop Vcf.EagerLoopProofs.
+
+Theorem c09_eager_loop_is_map_over_lines : forall prs_float valid h text,
+  eager_call_list prs_float valid h text = map (eager_line prs_float valid h) (lines_of text) /\
+  concat (lines_of text) = text /\ lines_shape (lines_of text).
+Proof.
+  intros. split; [apply eager_calls_lines|]. split; [apply lines_of_concat|apply lines_of_shape].
+Qed.
+Print Assumptions c09_eager_loop_is_map_over_lines.
+
+(* on a text given by its lines t1 LF .. tn LF tail: one result per line, the parser sees strip_cr t
+   (one CR before the LF dropped), a last line without LF is parsed as it is *)
+Theorem c09_eager_loop_framed : forall prs_float valid h (ts : list (list N)) (tail : list N),
+  Forall (fun t => ~ In 10%N t) ts -> ~ In 10%N tail ->
+  eager_call_list prs_float valid h (with_lf ts ++ tail) =
+  map (fun t => if valid (t ++ [10%N]) then read_eager prs_float h (strip_cr t) else None) ts
+  ++ match tail with
+     | [] => []
+     | _ => [if valid tail then read_eager prs_float h tail else None]
+     end.
+Proof. exact eager_calls_framed. Qed.
+Print Assumptions c09_eager_loop_framed.
+
+(* the loop of the file theorems (NV.Vcf.File.eager_records: stop at the first Err) is the call list
+   cut before its first Err *)
+Theorem c09_eager_file_is_loop_prefix : forall prs_float valid h text,
+  eager_records prs_float valid h text = until_err (eager_call_list prs_float valid h text).
+Proof. exact eager_file_until_err. Qed.
+Print Assumptions c09_eager_file_is_loop_prefix.
